@@ -33,6 +33,7 @@ type TxSpec struct {
 	Amt    int   `json:"amt,omitempty"`   // 0 conserve; 1 four outputs of 2^62; 2 one output 2^63-1 + one small; 3 a negative output; 4 outputs exceed inputs by 1 sela; 5 a zero-value output added; 6 two outputs of 2^62; 7 fee one below minimum
 	Wd     *WdSpec `json:"wd,omitempty"` // a side-chain withdrawal instead of a transfer (withdraw.go)
 	Seq    int     `json:"seq,omitempty"` // input sequence number (all inputs)
+	Wide   int     `json:"wide,omitempty"` // the last output is split into this many more outputs (output indexes past 255)
 	force  []outpoint // harness-internal: spend exactly these outpoints
 	Sign   int   `json:"sign,omitempty"`  // 0 owner signs; 1 another key signs with its own code; 2 content altered after signing; 3 no program; 4 another actor's code with owner's signature; 5 valid signature of a different transaction
 }
@@ -239,6 +240,19 @@ func (s *sim) makeTx(v *view, spec TxSpec) *txInfo {
 	}
 	if rest.Sign() > 0 || len(outs) == 0 {
 		addOut(from, rest.Int64())
+	}
+	if spec.Wide > 0 && spec.Amt == 0 && len(outs) > 0 {
+		// a payout-shaped transaction: hundreds of outputs, indexes beyond one byte
+		last := outs[len(outs)-1]
+		n := int64(spec.Wide) + 1
+		if each := int64(last.Value) / n; each >= 20*int64(s.node.cfg.MinTransactionFee) {
+			to := last.ProgramHash
+			last.Value -= common.Fixed64(each * int64(spec.Wide))
+			for i := 0; i < spec.Wide; i++ {
+				outs = append(outs, &common2.Output{AssetID: core.ELAAssetID, Value: common.Fixed64(each), ProgramHash: to, Type: common2.OTNone, Payload: &outputpayload.DefaultOutput{}})
+			}
+			s.c.Fault("wide-transaction-built")
+		}
 	}
 	switch spec.Amt {
 	case 1:
